@@ -38,7 +38,8 @@ func c19Run(r *simkit.Run) {
 	allowRemove := r.Flag("remove_blocks")
 	gen := newDBGen(r, r.Draw("state_keys", 1, 5))
 
-	if r.Tier == "thorough" && r.Chance(1, 4) {
+	// blocks with more records than one batch of the permanent merge holds (333)
+	if r.Chance(1, 8) || (r.Tier == "thorough" && r.Chance(1, 4)) {
 		gen.manyKeys = 340
 	}
 
@@ -120,7 +121,11 @@ func c19Run(r *simkit.Run) {
 		}
 	}
 
-	exact := func(what string) {
+	var exactU func(what string, universe dbUniverse)
+
+	exact := func(what string) { exactU(what, universe) }
+
+	exactU = func(what string, universe dbUniverse) {
 		got, err := actualReads(sys.center, universe)
 		if err != nil {
 			r.Fail("read-error", "error", "%s: %v", what, err)
@@ -188,6 +193,12 @@ func c19Run(r *simkit.Run) {
 				r.Op("MergeAllPermanent")
 				r.Probe("merge_all_permanent")
 				exact("after MergeAllPermanent")
+
+				if gen.manyKeys > 0 {
+					// every record of the big blocks, not the sample the readers use
+					exactU("after MergeAllPermanent, every key", fullUniverseOf(chain))
+					r.Probe("every_key_read_after_merge")
+				}
 			case 2:
 				time.Sleep(s.sleep)
 				r.Op("sleep %v", s.sleep)
@@ -258,6 +269,8 @@ func c19Run(r *simkit.Run) {
 				exact(fmt.Sprintf("after RemoveBlocks(%d)=%v", h, removed))
 			}
 		}
+
+		exactU("at the end of the history, every key", fullUniverseOf(chain))
 	})
 
 	type observation struct {
@@ -388,7 +401,7 @@ func init() {
 		Run:         c19Run,
 		Real:        []string{"isaacdatabase.Center", "isaacdatabase.LeveldbPermanent", "isaacdatabase.LeveldbBlockWrite", "isaacdatabase.TempLeveldb", "leveldbstorage", "goleveldb over simdisk", "isaacblock.SuffrageProof", "util.BaseJobWorker"},
 		Stub:        []string{"block maps/manifests are base.DummyBlockMap/DummyManifest (test-tagged types of the repository); generic states carry base.DummyStateValue"},
-		Rule:        "each run draws a chain of 1-7 blocks over 1-5 re-written state keys (plus suffrage and network-policy states, in-state and known operations; thorough tier also blocks with >333 states), a writer that interleaves block writes with MergeAllPermanent, sleeps that let the real 2 s merge ticker and temp clean-up run on the fake clock, and RemoveBlocks; after every writer step every read of the statement is compared exactly with the model (the slice of committed blocks). 0-3 concurrent reader tasks take full read snapshots; every item must equal the model at some moment between invoke and return, and state heights never go back while no block was removed. distinct = event-log hash",
+		Rule:        "each run draws a chain of 1-7 blocks over 1-5 re-written state keys (plus suffrage and network-policy states, in-state and known operations; in 1/8 of the runs, thorough 1/3, also blocks with more records than the 333 a batch of the permanent merge holds, every record of which is read after each merge and at the end), a writer that interleaves block writes with MergeAllPermanent, sleeps that let the real 2 s merge ticker and temp clean-up run on the fake clock, and RemoveBlocks; after every writer step every read of the statement is compared exactly with the model (the slice of committed blocks). 0-3 concurrent reader tasks take full read snapshots; every item must equal the model at some moment between invoke and return, and state heights never go back while no block was removed. distinct = event-log hash",
 		Assumptions: []string{"a concurrent snapshot is judged item by item against all model versions alive between its invoke and return"},
 	})
 }
